@@ -210,6 +210,12 @@ type runState struct {
 	finished [4]chan struct{}
 
 	armed      [2][2]atomic.Bool // [end][0 read,1 write]: a non-zero deadline was set at some point
+	dlSet      [2][2]atomic.Bool // [end][0 read,1 write]: a deadline is set right now (a timer may still fire)
+	acked      [2]atomic.Int64   // bytes of acknowledged writes of end e
+	got        [2]atomic.Int64   // bytes read so far from end e's writes
+
+	gmu   sync.Mutex
+	goids map[uint64]string // live goroutines of this run
 	noProgress atomic.Bool
 }
 
@@ -439,6 +445,111 @@ func (s *runState) armer(seed int64, wg *sync.WaitGroup) {
 	}
 }
 
+// ---------------------------------------------------------------- deadlock proof
+
+func goid() uint64 {
+	var buf [64]byte
+	n := runtime.Stack(buf[:], false)
+	var id uint64
+	fmt.Sscanf(string(buf[:n]), "goroutine %d ", &id)
+	return id
+}
+
+// spawn runs fn as a goroutine that is registered with the run while it lives.
+func (s *runState) spawn(name string, fn func()) {
+	go func() {
+		id := goid()
+		s.gmu.Lock()
+		s.goids[id] = name
+		s.gmu.Unlock()
+		defer func() {
+			s.gmu.Lock()
+			delete(s.goids, id)
+			s.gmu.Unlock()
+		}()
+		fn()
+	}()
+}
+
+type gInfo struct {
+	state string
+	stack string
+}
+
+var gHeader = regexp.MustCompile(`^goroutine (\d+) \[([^\],]+)`)
+
+func dumpAll() map[uint64]gInfo {
+	buf := make([]byte, 1<<22)
+	for {
+		n := runtime.Stack(buf, true)
+		if n < len(buf) {
+			buf = buf[:n]
+			break
+		}
+		buf = make([]byte, 2*len(buf))
+	}
+	out := map[uint64]gInfo{}
+	for _, blk := range strings.Split(string(buf), "\n\n") {
+		m := gHeader.FindStringSubmatch(blk)
+		if m == nil {
+			continue
+		}
+		var id uint64
+		fmt.Sscanf(m[1], "%d", &id)
+		out[id] = gInfo{state: m[2], stack: blk}
+	}
+	return out
+}
+
+// provenDeadlock decides from the scheduler's view of the run's goroutines whether progress
+// is impossible by construction: every live goroutine of the run is parked in sync.Cond.Wait
+// inside util/bufconn (at least one) or blocked on one of the harness' own channels / wait
+// groups (which only goroutines of this run release), none is running, runnable, sleeping or
+// in a lock, and no deadline is set on an end whose call is parked (no timer can wake it).
+// Time plays no role: the same answer would be given at any later moment.
+func (s *runState) provenDeadlock() (proven bool, parked []string, detail string) {
+	dump := dumpAll()
+	s.gmu.Lock()
+	ids := map[uint64]string{}
+	for id, n := range s.goids {
+		ids[id] = n
+	}
+	s.gmu.Unlock()
+	var lines []string
+	for id, name := range ids {
+		g, ok := dump[id]
+		if !ok {
+			return false, nil, "goroutine " + name + " ended meanwhile"
+		}
+		inBuf := strings.Contains(g.stack, "util/bufconn.(*pipe).")
+		switch {
+		case g.state == "sync.Cond.Wait" && inBuf:
+			op, dir := "Read", 0
+			if strings.Contains(g.stack, "util/bufconn.(*pipe).Write") {
+				op, dir = "Write", 1
+			}
+			end := 0
+			if strings.HasSuffix(name, "B") {
+				end = 1
+			}
+			if s.dlSet[end][dir].Load() {
+				return false, nil, fmt.Sprintf("%s is parked in %s but a deadline is set on that end", name, op)
+			}
+			parked = append(parked, fmt.Sprintf("%s parked in bufconn %s (sync.Cond.Wait)", name, op))
+		case !inBuf && (g.state == "chan receive" || g.state == "select" || g.state == "sync.WaitGroup.Wait" || g.state == "semacquire"):
+			lines = append(lines, fmt.Sprintf("%s blocked on a harness channel (%s)", name, g.state))
+		default:
+			return false, nil, fmt.Sprintf("%s is in state %q", name, g.state)
+		}
+	}
+	if len(parked) == 0 {
+		return false, nil, "no goroutine is parked inside bufconn"
+	}
+	sort.Strings(parked)
+	sort.Strings(lines)
+	return true, parked, strings.Join(append(append([]string{}, parked...), lines...), "; ")
+}
+
 type outcome struct {
 	plan           plan
 	viol           []violation
@@ -447,6 +558,8 @@ type outcome struct {
 	timeouts       int
 	starvedTimeout bool
 	partial        bool
+	deadlock       string // proven deadlock: description
+	deadlockDump   string
 	eofFull        int
 	zeroAfterClose int
 }
@@ -466,27 +579,28 @@ func runOne(p plan, seed int64) outcome {
 	for i := range s.finished {
 		s.finished[i] = make(chan struct{})
 	}
+	s.goids = map[uint64]string{}
 	var wg sync.WaitGroup
 	wg.Add(4)
-	go s.writer(0, seed*8+1, &wg)
-	go s.reader(0, seed*8+2, &wg)
-	go s.writer(1, seed*8+3, &wg)
-	go s.reader(1, seed*8+4, &wg)
+	s.spawn("wA", func() { s.writer(0, seed*8+1, &wg) })
+	s.spawn("rA", func() { s.reader(0, seed*8+2, &wg) })
+	s.spawn("wB", func() { s.writer(1, seed*8+3, &wg) })
+	s.spawn("rB", func() { s.reader(1, seed*8+4, &wg) })
 	if p.Mode != "stream" && p.DlByOther {
 		wg.Add(1)
-		go s.armer(seed*8+5, &wg)
+		s.spawn("armer", func() { s.armer(seed*8+5, &wg) })
 	}
 	if p.EarlyEnd >= 0 && !p.EarlyInl {
 		wg.Add(1)
-		go func() {
+		s.spawn("closer", func() {
 			defer wg.Done()
 			all := make(chan struct{})
-			go func() {
+			s.spawn("closer-helper", func() {
 				for _, f := range s.finished {
 					<-f
 				}
 				close(all)
-			}()
+			})
 			// the trigger may never be reached (its goroutine ended earlier)
 			select {
 			case <-s.earlyCh:
@@ -494,21 +608,47 @@ func runOne(p plan, seed int64) outcome {
 			case <-s.abort:
 			case <-all:
 			}
-		}()
+		})
 	}
 	done := make(chan struct{})
-	go func() { wg.Wait(); close(done) }()
+	s.spawn("waiter", func() { wg.Wait(); close(done) })
 	out := outcome{plan: p}
-	select {
-	case <-done:
-	case <-time.After(watchdog):
+	finished := false
+	// the scheduler is asked a few times whether the run is provably dead; only the last
+	// look (the watchdog proper) gives up as INCONCLUSIVE
+	for _, wait := range []time.Duration{5 * time.Second, 15 * time.Second, watchdog - 20*time.Second} {
+		select {
+		case <-done:
+			finished = true
+		case <-time.After(wait):
+			if ok, parked, detail := s.provenDeadlock(); ok {
+				// ask again: a goroutine that had just been woken shows up as runnable
+				time.Sleep(200 * time.Millisecond)
+				if ok2, parked2, _ := s.provenDeadlock(); ok2 && fmt.Sprint(parked) == fmt.Sprint(parked2) {
+					out.deadlock = detail + s.conservation()
+					buf := make([]byte, 1<<20)
+					out.deadlockDump = string(buf[:runtime.Stack(buf, true)])
+					for _, n := range []string{"wA", "rA", "wB", "rB", "closer", "armer"} {
+						if c := s.logs[n].cur.Load(); c != nil {
+							out.hung = append(out.hung, fmt.Sprintf("%s:%s(%d) on end %c", n, c.Op, c.Arg, 'A'+c.End))
+						}
+					}
+					close(s.abort)
+					return out
+				}
+			}
+		}
+		if finished || out.deadlock != "" {
+			break
+		}
+	}
+	if !finished {
+		_, _, why := s.provenDeadlock()
+		out.hung = append(out.hung, "not a provable deadlock: "+why)
 		for _, n := range []string{"wA", "rA", "wB", "rB", "closer", "armer"} {
 			if c := s.logs[n].cur.Load(); c != nil {
 				out.hung = append(out.hung, fmt.Sprintf("%s:%s(%d) on end %c", n, c.Op, c.Arg, 'A'+c.End))
 			}
-		}
-		if len(out.hung) == 0 {
-			out.hung = []string{"(no call pending: harness goroutines did not finish)"}
 		}
 		close(s.abort)
 		return out
